@@ -457,12 +457,20 @@ theorem get_function_key_injective (a b : Name) (h : get_function_key a = get_fu
   rw [get_function_key_spec, get_function_key_spec] at h
   exact List.append_cancel_left h
 
-/-- The GENERATED `Module::get_function` is the specification `TR.get_function`: the entry
-    under `"pkg." ++ name` and nothing else. -/
+/-- The GENERATED `Module::get_function` (key, look-up, the error of every exit, the order of the
+    parameter and return-type checks — all from source) is the specification `TR.get_function`:
+    the entry under `"pkg." ++ name` and nothing else, `DoesNotExist` when there is none,
+    `TypeMismatch` when its signature is not the requested one. -/
 theorem Module_get_function_spec (m : Module) (want : Sig) (name : Name) :
     Module_get_function m want name = TR.get_function m.functions want name := by
-  unfold Module_get_function get_function_at TR.get_function
+  unfold Module_get_function TR.get_function
   rw [get_function_key_spec]
+  cases h : Table.find m.functions (pkgDot ++ name) with
+  | none => rfl
+  | some info =>
+    obtain ⟨⟨ps, rt⟩, v⟩ := info
+    obtain ⟨wps, wrt⟩ := want
+    by_cases h1 : ps = wps <;> by_cases h2 : rt = wrt <;> simp [h1, h2]
 
 /-- The GENERATED `Package::get_function` adds nothing of its own. -/
 theorem Package_get_function_spec (p : Package) (want : Sig) (name : Name) :
